@@ -176,6 +176,22 @@ func (w *watches) markSeen(path string, exists bool) {
 	}
 }
 
+// Forget about entries in dir that we've seen but don't watch (named pipes,
+// sockets, unreadable files) and that no longer exist; for watched entries this
+// is done when their watch is removed.
+func (w *watches) forgetUnwatched(dir string, exists map[string]struct{}) {
+	w.mu.Lock()
+	defer w.mu.Unlock()
+	for p := range w.seen {
+		if _, ok := w.path[p]; ok || filepath.Dir(p) != dir {
+			continue
+		}
+		if _, ok := exists[p]; !ok {
+			delete(w.seen, p)
+		}
+	}
+}
+
 func (w *watches) seenBefore(path string) bool {
 	w.mu.RLock()
 	defer w.mu.RUnlock()
@@ -624,6 +640,12 @@ func (w *kqueue) dirChange(dir string) error {
 		}
 		return fmt.Errorf("fsnotify.dirChange %q: %w", dir, err)
 	}
+
+	exists := make(map[string]struct{}, len(files))
+	for _, f := range files {
+		exists[filepath.Join(dir, f.Name())] = struct{}{}
+	}
+	w.watches.forgetUnwatched(dir, exists)
 
 	for _, f := range files {
 		fi, err := f.Info()
